@@ -107,4 +107,127 @@ theorem re_to_complex {A : Op ℂ} (hre : IsAdjRe A) (hE : CommutesI A.eval) : I
     rw [e, ip_smul_left, ip_smul_left] at h
     simpa [Complex.mul_re] using h
 
+/-! ### basis lifting in the real inner product -/
+
+/-- real-linear (over `ℝ ⊂ ℂ`), reading only the first `n` coordinates -/
+structure IsRLinear (n : Nat) (f : V ℂ → V ℂ) : Prop where
+  add : ∀ x y, f (vadd x y) = vadd (f x) (f y)
+  smul : ∀ (r : ℝ) x, f (vsmul (r : ℂ) x) = vsmul (r : ℂ) (f x)
+  ext : ∀ x x', (∀ j < n, x j = x' j) → f x = f x'
+
+/-- `i·e_j` -/
+def ibasis (j : Nat) : V ℂ := vsmul Complex.I (basis j)
+
+theorem IsRLinear.zero {n : Nat} {f : V ℂ → V ℂ} (h : IsRLinear n f) : f vzero = vzero := by
+  have := h.smul 0 vzero
+  have e : vsmul ((0 : ℝ) : ℂ) vzero = vzero := by funext i; simp [vsmul, vzero]
+  rw [e] at this
+  rw [this]
+  funext i
+  simp [vsmul, vzero]
+
+theorem IsRLinear.trunc_expand {n : Nat} {f : V ℂ → V ℂ} (h : IsRLinear n f) (x : V ℂ) (i : Nat) :
+    ∀ k, f (trunc k x) i
+      = ∑ j ∈ range k, (((x j).re : ℂ) * f (basis j) i + ((x j).im : ℂ) * f (ibasis j) i) := by
+  intro k
+  induction k with
+  | zero =>
+    have : trunc 0 x = vzero := by funext j; simp [trunc, vzero]
+    rw [this, h.zero]
+    simp [vzero]
+  | succ k ih =>
+    have e : trunc (k + 1) x
+        = vadd (trunc k x) (vadd (vsmul ((x k).re : ℂ) (basis k)) (vsmul ((x k).im : ℂ) (ibasis k))) := by
+      funext j
+      simp only [trunc, vadd, vsmul, basis, ibasis]
+      by_cases h1 : j < k
+      · have : j ≠ k := Nat.ne_of_lt h1
+        simp [h1, this, Nat.lt_succ_of_lt h1]
+      · by_cases h2 : j = k
+        · subst h2
+          simp
+        · have : ¬ j < k + 1 := by omega
+          simp [h1, h2, this]
+    rw [e, h.add, h.add, h.smul, h.smul, Finset.sum_range_succ, ← ih]
+    simp [vadd, vsmul]
+
+theorem IsRLinear.expand {n : Nat} {f : V ℂ → V ℂ} (h : IsRLinear n f) (x : V ℂ) (i : Nat) :
+    f x i = ∑ j ∈ range n, (((x j).re : ℂ) * f (basis j) i + ((x j).im : ℂ) * f (ibasis j) i) := by
+  rw [← h.trunc_expand x i n]
+  have : f x = f (trunc n x) := by
+    apply h.ext
+    intro j hj
+    simp [trunc, hj]
+  rw [this]
+
+theorem ip_ibasis_right (n i : Nat) (hi : i < n) (u : V ℂ) : ip n u (ibasis i) = -Complex.I * u i := by
+  simp only [ip_eq, ibasis, vsmul, basis]
+  have e : ∀ t, u t * star (Complex.I * (if t = i then (1 : ℂ) else 0)) = if t = i then -Complex.I * u t else 0 := by
+    intro t; by_cases h : t = i <;> simp [h]; ring
+  simp only [e]
+  rw [Finset.sum_ite_eq' (range n) i (fun t => -Complex.I * u t)]
+  simp [hi]
+
+theorem ip_ibasis_left (n j : Nat) (hj : j < n) (w : V ℂ) : ip n (ibasis j) w = Complex.I * star (w j) := by
+  simp only [ip_eq, ibasis, vsmul, basis]
+  have e : ∀ t, Complex.I * (if t = j then (1 : ℂ) else 0) * star (w t) = if t = j then Complex.I * star (w t) else 0 := by
+    intro t; by_cases h : t = j <;> simp [h]
+  simp only [e]
+  rw [Finset.sum_ite_eq' (range n) j (fun t => Complex.I * star (w t))]
+  simp [hj]
+
+/-- lifting lemma in the real inner product: real-linear `eval`, `adj` and the identity of real parts on all pairs
+    from the real basis `{e_j, i·e_j} × {e_i, i·e_i}` ⇒ the identity of real parts for all vectors -/
+theorem basis_lift_re {A : Op ℂ} (hE : IsRLinear A.nin A.eval) (hB : IsRLinear A.nout A.adj)
+    (h11 : ∀ j < A.nin, ∀ i < A.nout, (ip A.nout (A.eval (basis j)) (basis i)).re = (ip A.nin (basis j) (A.adj (basis i))).re)
+    (h1i : ∀ j < A.nin, ∀ i < A.nout, (ip A.nout (A.eval (basis j)) (ibasis i)).re = (ip A.nin (basis j) (A.adj (ibasis i))).re)
+    (hi1 : ∀ j < A.nin, ∀ i < A.nout, (ip A.nout (A.eval (ibasis j)) (basis i)).re = (ip A.nin (ibasis j) (A.adj (basis i))).re)
+    (hii : ∀ j < A.nin, ∀ i < A.nout, (ip A.nout (A.eval (ibasis j)) (ibasis i)).re = (ip A.nin (ibasis j) (A.adj (ibasis i))).re) :
+    IsAdjRe A := by
+  rw [isAdjRe_iff]
+  intro x y
+  -- the four families of hypotheses in coordinates
+  have k11 : ∀ j < A.nin, ∀ i < A.nout, (A.eval (basis j) i).re = (A.adj (basis i) j).re := by
+    intro j hj i hi
+    have := h11 j hj i hi
+    rw [ip_basis_right _ _ hi, ip_basis_left _ _ hj] at this
+    simpa using this
+  have k1i : ∀ j < A.nin, ∀ i < A.nout, (A.eval (basis j) i).im = (A.adj (ibasis i) j).re := by
+    intro j hj i hi
+    have := h1i j hj i hi
+    rw [ip_ibasis_right _ _ hi, ip_basis_left _ _ hj] at this
+    simpa using this
+  have ki1 : ∀ j < A.nin, ∀ i < A.nout, (A.eval (ibasis j) i).re = (A.adj (basis i) j).im := by
+    intro j hj i hi
+    have := hi1 j hj i hi
+    rw [ip_basis_right _ _ hi, ip_ibasis_left _ _ hj] at this
+    simpa using this
+  have kii : ∀ j < A.nin, ∀ i < A.nout, (A.eval (ibasis j) i).im = (A.adj (ibasis i) j).im := by
+    intro j hj i hi
+    have := hii j hj i hi
+    rw [ip_ibasis_right _ _ hi, ip_ibasis_left _ _ hj] at this
+    simpa using this
+  simp only [ip_eq, Complex.re_sum]
+  have l : ∀ i ∈ range A.nout, (A.eval x i * star (y i)).re
+      = ∑ j ∈ range A.nin, ((x j).re * (y i).re * (A.eval (basis j) i).re + (x j).re * (y i).im * (A.eval (basis j) i).im
+          + (x j).im * (y i).re * (A.eval (ibasis j) i).re + (x j).im * (y i).im * (A.eval (ibasis j) i).im) := by
+    intro i _
+    rw [hE.expand x i, Finset.sum_mul, Complex.re_sum]
+    apply Finset.sum_congr rfl
+    intro j _
+    simp [Complex.mul_re, Complex.add_re, Complex.mul_im]
+    ring
+  have r : ∀ j ∈ range A.nin, (x j * star (A.adj y j)).re
+      = ∑ i ∈ range A.nout, ((x j).re * (y i).re * (A.eval (basis j) i).re + (x j).re * (y i).im * (A.eval (basis j) i).im
+          + (x j).im * (y i).re * (A.eval (ibasis j) i).re + (x j).im * (y i).im * (A.eval (ibasis j) i).im) := by
+    intro j hj
+    rw [hB.expand y j, star_sum, Finset.mul_sum, Complex.re_sum]
+    apply Finset.sum_congr rfl
+    intro i hi
+    rw [k11 j (Finset.mem_range.mp hj) i (Finset.mem_range.mp hi), k1i j (Finset.mem_range.mp hj) i (Finset.mem_range.mp hi),
+      ki1 j (Finset.mem_range.mp hj) i (Finset.mem_range.mp hi), kii j (Finset.mem_range.mp hj) i (Finset.mem_range.mp hi)]
+    simp [Complex.mul_re, Complex.add_re, Complex.mul_im, Complex.add_im]
+    ring
+  rw [Finset.sum_congr rfl l, Finset.sum_congr rfl r, Finset.sum_comm]
+
 end Scico.Adjoint
